@@ -171,6 +171,8 @@ class World:
         self.arbiter = None
         self.outcome = None       # ("exit", status) | ("crash", repr) | ("done",) | ("error", repr)
         self.events = []          # oracle-side log: (kind, ...)
+        self.sig_disp = {}        # signal number -> the handler the master installed last (SignalProxy.signal)
+        self.oracle_notes = []    # violations seen by the environment itself (judged by the C03 oracle)
         self.nlabels = 0
         self.in_script = True
         self.probe = None         # optional callback(world, yield_code) for property oracles
@@ -291,7 +293,12 @@ class World:
             return
         self.resolved.append(tuple(lab))
         self.nlabels += 1
-        if kind == "C":
+        if kind == "C" and self.sig_disp.get(int(_signal.SIGCHLD)) in (_signal.SIG_DFL, _signal.SIG_IGN):
+            self.chld_pending = False
+            self.oracle_notes.append("SIGCHLD arrived while the master had reset its disposition (signal.signal(SIGCHLD, %r)): "
+                                     "the kernel discards it and the dead child is never reaped"
+                                     % self.sig_disp.get(int(_signal.SIGCHLD)))
+        elif kind == "C":
             self.chld_pending = False
             self.pending_obs = True
             self.in_handler += 1
@@ -318,7 +325,7 @@ class World:
             after = list(list.__iter__(q))
             # a signal that reaches the master while its queue has room is queued (TTIN / TTOU / HUP are requests: two of them are
             # two requests); the queue holds five, what arrives beyond that is dropped
-            if len(before) < 5 and after != before + [int(lab[1])] and hasattr(self, "oracle_notes"):
+            if len(before) < 5 and after != before + [int(lab[1])] :
                 self.oracle_notes.append("signal %d reached the master while its queue held %r (room for %d more) and was not queued: "
                                          "the queue is now %r" % (int(lab[1]), before, 5 - len(before), after))
             self.events.append(("signal", int(lab[1]), self.mono))
@@ -488,7 +495,11 @@ class World:
 
         class SignalProxy(Passthrough):
             def signal(self, signo, handler):
-                return None
+                # the disposition is remembered: a SIGCHLD that arrives while the master has reset it to SIG_DFL / SIG_IGN
+                # is discarded by the kernel (apply_env "C")
+                old = world.sig_disp.get(int(signo))
+                world.sig_disp[int(signo)] = handler
+                return old
 
         class RandomProxy(Passthrough):
             def random(self):
